@@ -86,8 +86,25 @@ func execTapeProc(bin, prop, tier string, tape []uint32, single bool) (int, stri
 	cmd.Stdout = &out
 	cmd.Stderr = &out
 	done := make(chan error, 1)
-	if err := cmd.Start(); err != nil {
-		return 2, err.Error(), nil
+	var startErr error
+	for attempt := 0; attempt < 4; attempt++ {
+		if startErr = cmd.Start(); startErr == nil {
+			break
+		}
+		// transient (EAGAIN under load): build a fresh Cmd and try again
+		time.Sleep(time.Duration(200*(attempt+1)) * time.Millisecond)
+		cmd = exec.Command(bin, "exec-tape")
+		cmd.Stdin = bytes.NewReader(req)
+		cmd.Env = append(os.Environ(), "GORACE=halt_on_error=1 exitcode=66 atexit_sleep_ms=0")
+		if single {
+			cmd.Env = append(cmd.Env, "GOMAXPROCS=1")
+		}
+		out.Reset()
+		cmd.Stdout = &out
+		cmd.Stderr = &out
+	}
+	if startErr != nil {
+		return 2, startErr.Error(), nil
 	}
 	go func() { done <- cmd.Wait() }()
 	select {
